@@ -90,49 +90,82 @@ func init() {
 			}
 			return entResult(b)
 		}
-		useStyling := rng.Intn(2) == 0
-		var opts []styling.StyledTextOption
-		for _, p := range tr.List(in["pieces"]) {
-			m := tr.Map(p)
-			s := ""
-			for _, cl := range tr.List(m["text"]) {
-				s += runeClass(tr.Str(cl), rng)
-			}
-			text := s
-			switch tr.Str(m["fmt"]) {
-			case "plain":
-				if useStyling {
-					opts = append(opts, styling.Plain(text))
-				} else {
-					b.Plain(text)
-				}
-			case "bold":
-				if useStyling {
-					opts = append(opts, styling.Bold(text))
-				} else {
-					b.Bold(text)
-				}
-			case "italic":
-				if useStyling {
-					opts = append(opts, styling.Italic(text))
-				} else {
-					b.Italic(text)
-				}
-			case "bi":
-				if useStyling {
-					opts = append(opts, styling.Custom(func(eb *entity.Builder) error { eb.Format(text, entity.Bold(), entity.Italic()); return nil }))
-				} else {
-					b.Format(text, entity.Bold(), entity.Italic())
-				}
-			}
-		}
-		if useStyling {
-			if err := styling.Perform(b, opts...); err != nil {
+		if tr.Str(in["kind"]) == "reuse" {
+			// the same builder for two messages in a row; the caller keeps the first result
+			if err := buildPieces(b, tr.List(in["first"]), rng); err != nil {
 				return tr.M{"err": err.Error()}
 			}
+			msg1, ents1 := b.Complete()
+			type snap struct {
+				t        uint32
+				off, len int
+			}
+			var before []snap
+			for _, e := range ents1 {
+				before = append(before, snap{e.TypeID(), e.GetOffset(), e.GetLength()})
+			}
+			msgBefore := string(append([]byte(nil), msg1...))
+			if err := buildPieces(b, tr.List(in["pieces"]), rng); err != nil {
+				return tr.M{"err": err.Error()}
+			}
+			res := entResult(b)
+			intact := msg1 == msgBefore && len(ents1) == len(before)
+			for i := 0; intact && i < len(ents1); i++ {
+				intact = ents1[i] != nil && before[i] == snap{ents1[i].TypeID(), ents1[i].GetOffset(), ents1[i].GetLength()}
+			}
+			res["first_intact"] = intact
+			return res
+		}
+		if err := buildPieces(b, tr.List(in["pieces"]), rng); err != nil {
+			return tr.M{"err": err.Error()}
 		}
 		return entResult(b)
 	}
+}
+
+func buildPieces(b *entity.Builder, pieces []any, rng *rand.Rand) error {
+	useStyling := rng.Intn(2) == 0
+	var opts []styling.StyledTextOption
+	for _, p := range pieces {
+		m := tr.Map(p)
+		s := ""
+		for _, cl := range tr.List(m["text"]) {
+			s += runeClass(tr.Str(cl), rng)
+		}
+		text := s
+		switch tr.Str(m["fmt"]) {
+		case "plain":
+			if useStyling {
+				opts = append(opts, styling.Plain(text))
+			} else {
+				b.Plain(text)
+			}
+		case "bold":
+			if useStyling {
+				opts = append(opts, styling.Bold(text))
+			} else {
+				b.Bold(text)
+			}
+		case "italic":
+			if useStyling {
+				opts = append(opts, styling.Italic(text))
+			} else {
+				b.Italic(text)
+			}
+		case "bi":
+			if useStyling {
+				opts = append(opts, styling.Custom(func(eb *entity.Builder) error { eb.Format(text, entity.Bold(), entity.Italic()); return nil }))
+			} else {
+				b.Format(text, entity.Bold(), entity.Italic())
+			}
+		}
+	}
+	if useStyling {
+		if err := styling.Perform(b, opts...); err != nil {
+			return err
+		}
+	}
+	return nil
 }
 
 func entResult(b *entity.Builder) tr.M {
